@@ -1,5 +1,117 @@
-import MlModel.Model.Queue
+import MlModel.Lemmas.QueueProd
+/-!
+# C04 — iterator queues deliver every element exactly once (safety part)
+
+All theorems quantify over **every** reachable configuration of the LTS of
+`Model/Queue.lean`: any number of producers, `get`-loop consumers, `get_batch`-loop consumers
+(any batch size, blocking or not) and stoppers, any capacity (0 = unbounded), with or without a
+timeout, and any schedule (`Reachable` = reflexive-transitive closure of `step` over all
+scheduler choices, timeout alternatives included).
+
+Proved here: mutual exclusion / lock discipline, exactly-once (conservation as a multiset
+equation), FIFO per consumer, per-producer order at every consumer.  The liveness half of C04
+(no deadlock, termination, final state) is in `Properties/C04Live.lean`.
+-/
 namespace MlModel.C04
 open MlModel.Queue
-theorem C04_placeholder : (init 0 1 false false []).allDone = true := by decide
+
+variable {cap maxEnq : Nat} {to ig : Bool} {progs : List Prog} {c : Cfg}
+
+/-- **Mutual exclusion**: two threads are never both at program points that own the same lock
+(dequeue condition, enqueue condition, state lock).  In particular every `notify`, `wait`
+and `release` is executed by the owner (the real code would raise `RuntimeError` otherwise). -/
+theorem C04_mutex (h : Reachable (init cap maxEnq to ig progs) c) (l : Lk)
+    {i j : Tid} {ti tj : Thread} (hi : c.ths[i]? = some ti) (hj : c.ths[j]? = some tj)
+    (hhi : holds l ti.pc = true) (hhj : holds l tj.pc = true) : i = j := by
+  have inv := lockInv_reachable (lockInv_init cap maxEnq to ig progs) h
+  have h1 := (inv.1 i ti hi l).mpr hhi
+  have h2 := (inv.1 j tj hj l).mpr hhj
+  rw [h1] at h2
+  exact Option.some.inj h2
+
+/-- A lock's recorded owner is exactly the thread whose program point says it holds the lock. -/
+theorem C04_owner_iff (h : Reachable (init cap maxEnq to ig progs) c) (l : Lk)
+    {i : Tid} {ti : Thread} (hi : c.ths[i]? = some ti) :
+    c.sh.owner l = some i ↔ holds l ti.pc = true :=
+  (lockInv_reachable (lockInv_init cap maxEnq to ig progs) h).1 i ti hi l
+
+/-- **Exactly once**: as multisets, everything ever put into the queue = what is still queued
++ what each consumer holds (delivered, collected in its current batch, or in hand)
++ what a raising `get_batch` dropped.  No element is duplicated and none vanishes. -/
+theorem C04_exactly_once (h : Reachable (init cap maxEnq to ig progs) c) :
+    c.sh.produced.Perm (c.sh.q ++ sumSeq c.ths ++ c.sh.lost) := by
+  have inv := dataInv_reachable (dataInv_init cap maxEnq to ig progs) h
+  rw [inv.fifo]
+  have := inv.cons
+  rw [List.perm_iff_count] at this ⊢
+  intro e; have := this e
+  simp only [List.count_append] at this ⊢; omega
+
+/-- **FIFO**: what a consumer has received so far (and holds) is a subsequence of the global
+enqueue order. -/
+theorem C04_fifo_consumer (h : Reachable (init cap maxEnq to ig progs) c) {t : Thread}
+    (ht : t ∈ c.ths) : t.received.Sublist c.sh.produced := by
+  have inv := dataInv_reachable (dataInv_init cap maxEnq to ig progs) h
+  have h1 : t.received.Sublist (seqOf t) := by
+    unfold seqOf; rw [List.append_assoc]; exact List.sublist_append_left _ _
+  have h2 : c.sh.dequeued.Sublist c.sh.produced := by
+    rw [inv.fifo]; exact List.sublist_append_left _ _
+  exact (h1.trans (inv.sub t ht)).trans h2
+
+/-- Each producer enqueues (a subsequence of) its source values, in source order. -/
+theorem C04_fifo_producer (h : Reachable (init cap maxEnq to ig progs) c) {tid : Tid} {t : Thread}
+    {src : List Item} {r : Nat} (ht : c.ths[tid]? = some t) (hp : t.prog = .producer src r) :
+    (producedBy tid c.sh.produced).Sublist (vals src) := by
+  have inv := prodInv_reachable (dataInv_init cap maxEnq to ig progs)
+    (prodInv_init cap maxEnq to ig progs) h
+  exact (List.sublist_append_left _ _).trans (inv.order tid t src r ht hp)
+
+/-- **Per-producer order at every consumer**: the values of producer `p` that consumer `t` has
+received appear in the order of `p`'s source iterator. -/
+theorem C04_per_producer_order (h : Reachable (init cap maxEnq to ig progs) c) {t : Thread}
+    (ht : t ∈ c.ths) {p : Tid} {tp : Thread} {src : List Item} {r : Nat}
+    (hp : c.ths[p]? = some tp) (hprog : tp.prog = .producer src r) :
+    (producedBy p t.received).Sublist (vals src) := by
+  have h1 := C04_fifo_consumer h ht
+  have h2 : (producedBy p t.received).Sublist (producedBy p c.sh.produced) := by
+    unfold producedBy
+    exact (h1.filter _).map _
+  exact h2.trans (C04_fifo_producer h hp hprog)
+
+/-- Nothing is invented: every received element was put by some producer step. -/
+theorem C04_received_mem (h : Reachable (init cap maxEnq to ig progs) c) {t : Thread}
+    (ht : t ∈ c.ths) {e : Elem} (he : e ∈ t.received) : e ∈ c.sh.produced :=
+  (C04_fifo_consumer h ht).subset he
+
+/-! ### Non-vacuity: concrete reachable configurations (these are tests of the definitions) -/
+
+theorem reachable_of_replay : ∀ (sched : List (Tid × Bool)) (c : Cfg) (acc : List (Tid × String))
+    {tr : List (Tid × String)} {c' : Cfg}, replay c sched acc = (tr, c', true) → Reachable c c' := by
+  intro sched
+  induction sched with
+  | nil => intro c acc tr c' h; simp only [replay, Prod.mk.injEq] at h; rw [← h.2.1]; exact .init
+  | cons x xs ih =>
+    intro c acc tr c' h
+    obtain ⟨tid, alt⟩ := x
+    simp only [replay] at h
+    split at h
+    · simp at h
+    · rename_i lbl c1 hs
+      have h1 := ih c1 _ h
+      clear h ih
+      induction h1 with
+      | init => exact .step .init hs
+      | step _ hs2 ih2 => exact .step ih2 hs2
+
+theorem reachable_replay (c : Cfg) (sched : List (Tid × Bool))
+    (h : (replay c sched []).2.2 = true) : Reachable c (replay c sched []).2.1 :=
+  reachable_of_replay sched c [] (tr := (replay c sched []).1) (by rw [← h])
+
+/-- one producer `[5]` and one `get` consumer, capacity 1: after this schedule the element sits in
+the consumer's hand: the hypotheses of the theorems above are met by a non-trivial configuration -/
+example : ∃ c, Reachable (init 1 1 false false [.producer [.val 5] 9, .getLoop]) c ∧
+    c.sh.produced = [(0, 5)] ∧ c.sh.q = [] ∧ sumSeq c.ths = [(0, 5)] :=
+  ⟨_, reachable_replay (init 1 1 false false [.producer [.val 5] 9, .getLoop])
+    ([0,0,0,0,0,0,0,0,1,1,1,1].map (·, false)) (by decide), by decide⟩
+
 end MlModel.C04
